@@ -281,6 +281,8 @@ def run(report: core.Report):
         "types/%proto.py.j2 for every covering valuation: which schema accessor fills each syntactic slot of each "
         "declaration, under which guard; plus AST checks of the Python that feeds those accessors.")
     report.assumptions.append("proto-plus / protobuf run-time behaviour (serialisation, JSON mapping) is outside the analysis")
+    from .common_rules import loader_order
+    loader_order(report, "C02.O", "field numbers, oneof membership and nesting are emitted in the order read")
     lib = Lib()
     check_proto_template(report, lib, PROTO_T, report.tier)
     if report.tier == "thorough":
